@@ -76,6 +76,8 @@ type c20Opts struct {
 	OddNames  bool   // step names and the metadata directory contain characters of file-name patterns
 	DotPaths  bool   // artifacts are passed as single files spelled ./proj/<file> and the strip prefix as ./proj/
 	Rewrite   bool   // every step's command also rewrites proj/version.txt in place: other content, same size, modification time restored
+	Sublayout bool   // the first step is delegated: its functionary signs a one-step sublayout (with `in-toto sign`), the inner step is carried out with `run -d <meta>/<step>.<keyid8>`
+	LinkStore bool   // the link files are kept in a store directory; the metadata directory holds symbolic links to them
 	Resign    bool   // the layout file is first signed as an earlier revision, then revised in place (stale signatures stay) and signed again with the same keys
 }
 
@@ -112,6 +114,7 @@ type c20World struct {
 	ownerPub                      []string // public key files of the layout signers
 	layout                        string
 	inter                         string
+	lastLink                      string // where the last step's link lies when the step was delegated to a sublayout
 	inter2                        string // a second intermediate file (chain leaf <- inter2 <- inter <- root)
 	o                             c20Opts
 }
@@ -181,6 +184,8 @@ func runC20(c *core.Ctx) {
 		o.OddNames = r.Intn(4) == 0
 		o.DotPaths = o.Strip && !o.RunDirOpt && !o.CommaName && r.Intn(3) == 0
 		o.Rewrite = !o.CommaName && !o.DotPaths && r.Intn(3) == 0
+		o.LinkStore = !o.NoLinkDir && i%4 == 1
+		o.Sublayout = !o.Cert && !o.NoLinkDir && !o.Record[0] && i%5 == 3
 		metaName := "meta"
 		if o.OddNames {
 			metaName = "meta[1]"
@@ -258,6 +263,9 @@ func runC20(c *core.Ctx) {
 			stepNames = []string{"fetch[1]", "build[x86]", "pack[all]"}[:o.Steps]
 		}
 		fail := ""
+		subFn := fast[(i+7)%len(fast)]
+		subPriv, _ := writeKey("subfn", subFn)
+		subDir := ""
 		var lastProducts map[string]string
 		for s, name := range stepNames {
 			// what the step's command does in proj/
@@ -296,7 +304,15 @@ func runC20(c *core.Ctx) {
 			if s == 0 && o.Cert {
 				common = append(common, "-c", certFile)
 			}
-			if o.MetaDir {
+			delegated := s == 0 && o.Sublayout
+			if delegated {
+				// the step is carried out as the only step of a sublayout: by another functionary, its link
+				// goes into the directory that belongs to the sublayout
+				subDir = filepath.Join(w.meta, fmt.Sprintf(intoto.SublayoutLinkDirFormat, name, fn[0].Pub.KeyID))
+				mkdirs(subDir)
+				relSub, _ := filepath.Rel(w.work, subDir)
+				common = []string{"-n", "inner", "-k", subPriv, "-d", relSub}
+			} else if o.MetaDir {
 				common = append(common, "-d", metaName)
 			}
 			if o.Strip {
@@ -356,6 +372,12 @@ func runC20(c *core.Ctx) {
 			}
 			// the link must be named as the verifier expects
 			want := filepath.Join(w.meta, gen.LinkName(name, fn[s].Pub.KeyID))
+			if delegated {
+				want = filepath.Join(subDir, gen.LinkName("inner", subFn.Pub.KeyID))
+				if o.Steps == 1 {
+					w.lastLink = want
+				}
+			}
 			if _, err := os.Stat(want); err != nil {
 				fail = fmt.Sprintf("step %s: expected link file %s was not written", name, filepath.Base(want))
 				break
@@ -371,6 +393,22 @@ func runC20(c *core.Ctx) {
 				}
 			}
 			lastProducts = map[string]string{newFile: content}
+			if delegated {
+				// the sublayout: written by the harness, signed by the step's functionary through the CLI,
+				// stored where the step's link would be
+				pre := "proj/"
+				if o.Strip {
+					pre = ""
+				}
+				sub := gen.NewLayout([]intoto.Step{gen.Step("inner", 1, gen.KeyIDs(subFn), [][]string{{"ALLOW", "*"}}, [][]string{{"CREATE", pre + outFile(name)}, {"ALLOW", "*"}})}, nil, gen.KeyMap(subFn))
+				um, _ := gen.NewMeta(sub, o.DSSE)
+				sp := filepath.Join(w.meta, gen.LinkName(name, fn[0].Pub.KeyID))
+				um.Dump(sp)
+				if inv := cl.run(root, "sign", "-f", sp, "-k", fnPriv[0], "-o", sp); inv.Exit != 0 {
+					fail = "in-toto sign (sublayout) fails: " + inv.Stderr
+					break
+				}
+			}
 		}
 		extraFinal := map[string]string{}
 		if o.Rewrite {
@@ -382,6 +420,20 @@ func runC20(c *core.Ctx) {
 			c.Violation("honest step through the CLI fails: "+core.MsgClass(stripDirs(fail, root)), id, detail)
 			removeAll(root)
 			continue
+		}
+		if o.LinkStore {
+			// a content store holds the link files; what `verify -d` is pointed at are symbolic links
+			store := filepath.Join(root, "store")
+			mkdirs(store)
+			for _, n := range listDir(w.meta) {
+				if !strings.HasSuffix(n, ".link") {
+					continue
+				}
+				from, to := filepath.Join(w.meta, n), filepath.Join(store, n)
+				if rel, rerr := filepath.Rel(w.meta, to); rerr == nil && os.Rename(from, to) == nil {
+					os.Symlink(rel, from)
+				}
+			}
 		}
 		// ---- the layout: written by the harness, signed with `in-toto sign` ---------------
 		prefix := "proj/"
@@ -699,6 +751,9 @@ func sameSizeRewrite(s string) string {
 
 func c20MatchProducts(c *core.Ctx, id string, cl *cli, w *c20World, o c20Opts, fn []gen.KeyPair, last string, lastProducts map[string]string) {
 	link := filepath.Join(w.meta, gen.LinkName(last, fn[o.Steps-1].Pub.KeyID))
+	if w.lastLink != "" {
+		link = w.lastLink // the last step was carried out inside a sublayout: its link lies there
+	}
 	args := []string{"match-products", "-l", link, "-p", "proj"}
 	if o.Strip {
 		args = append(args, "--lstrip-paths", "proj/")
@@ -768,7 +823,7 @@ func init() {
 	core.Register(&core.Property{
 		ID:    "C20",
 		Level: "exploration",
-		Rule: "seeded supply chains of 1-3 steps carried out ONLY through the built `in-toto` binary: per step `run` or `record start` / (changes by hand) / `record stop`, options drawn from {`verify` without -d from the directory that holds the links, certificate chain over two intermediates passed as two -i files, product named with a comma and passed to `run -p` by its own path, artifacts passed as single files spelled ./proj/<file> with the strip prefix spelled ./proj/, a file that every step's command rewrites in place (other content, same size, modification time restored) and that is material and product of each step, step names and metadata directory with brackets, product names with non-ASCII characters, layout file signed as an earlier revision / revised in place / signed again with the same keys, --use-dsse, -c certificate with the CA in the layout (the certificate issued directly or by an intermediate CA that only `verify -i` supplies), -l strip prefix, -d metadata directory, --run-dir, -x, -e exclude}, step commands that are quiet / print several lines / write to stderr only; in a third of the chains the last step is carried out twice (a noisy first attempt, then the real one, both writing the same link path); layout written by the harness and signed with `in-toto sign` by 1-2 keys; link names checked against the verifier's naming; then `verify` on the honest chain and after each of 15 single tamperings (product byte, extra file, link content, link signature, link missing, link renamed, layout content - verified with all, only the first and only the last signer key -, layout signed by an outsider, wrong -k, extra -k of a non-signer, an unloadable / missing key file listed before a good one, expired layout), each time compared with library verification of a byte-identical copy; `sign --verify` with signer / outsider keys, `key id` on a key and on a non-key, `match-products` on untouched and locally changed products compared with InTotoMatchProducts. " +
+		Rule: "seeded supply chains of 1-3 steps carried out ONLY through the built `in-toto` binary: per step `run` or `record start` / (changes by hand) / `record stop`, options drawn from {`verify` without -d from the directory that holds the links, certificate chain over two intermediates passed as two -i files, link files kept in a store directory with symbolic links in the metadata directory, first step delegated to a one-step sublayout (signed with `in-toto sign`, inner step carried out with `run -d <links>/<step>.<keyid8>`), product named with a comma and passed to `run -p` by its own path, artifacts passed as single files spelled ./proj/<file> with the strip prefix spelled ./proj/, a file that every step's command rewrites in place (other content, same size, modification time restored) and that is material and product of each step, step names and metadata directory with brackets, product names with non-ASCII characters, layout file signed as an earlier revision / revised in place / signed again with the same keys, --use-dsse, -c certificate with the CA in the layout (the certificate issued directly or by an intermediate CA that only `verify -i` supplies), -l strip prefix, -d metadata directory, --run-dir, -x, -e exclude}, step commands that are quiet / print several lines / write to stderr only; in a third of the chains the last step is carried out twice (a noisy first attempt, then the real one, both writing the same link path); layout written by the harness and signed with `in-toto sign` by 1-2 keys; link names checked against the verifier's naming; then `verify` on the honest chain and after each of 15 single tamperings (product byte, extra file, link content, link signature, link missing, link renamed, layout content - verified with all, only the first and only the last signer key -, layout signed by an outsider, wrong -k, extra -k of a non-signer, an unloadable / missing key file listed before a good one, expired layout), each time compared with library verification of a byte-identical copy; `sign --verify` with signer / outsider keys, `key id` on a key and on a non-key, `match-products` on untouched and locally changed products compared with InTotoMatchProducts. " +
 			"non-trivial = the chain reached `verify`; distinct = (option set, tampering)",
 		Assumptions: []string{"the inspection of the generated layout runs in the directory `verify` is started in (a separate final-product directory)", "open known finding F6 also shows here: --use-dsse together with -c"},
 		Workers:     func(string) int { return 16 },
